@@ -368,6 +368,27 @@ def r5_slave_failure(ck, cx):
     ck.floor('R5', n, 7, 'datastore-failure paths over the 7 front-ends')
 
 
+def r7_block_validate(ck, cx):
+    """the range guard of R2 is only as good as the block predicate behind context.validate(): it must accept
+    exactly the ranges every cell of which exists (shared with C18 R1 / R3; only the validate constructs)"""
+    ck.rule('R7', 'block validate() accepts a range iff every addressed cell exists (shared with C18 R1/R3)')
+    from .c18 import r1_sequential_validate, r3_sparse, r4_context_offset
+    sub = type(ck)(ck.pid, ck.tier)
+    for r in (r1_sequential_validate, r3_sparse, r4_context_offset):
+        sub.guard(r, sub, cx)
+    n = 0
+    for o in sub.obligations:
+        if str(o[1]).endswith('.validate'):
+            ck.obligations.append(('R7',) + tuple(o[1:]))
+            n += 1
+    for f in sub.findings:
+        if f.construct.endswith('.validate'):
+            ck.finding('R7', f.construct, f.detail, f.loc, f.message + ' — a request for cells that do not exist passes the range guard instead of getting exception 02')
+    for b in getattr(sub, 'broken', []):
+        ck.broken.append(b)
+    ck.floor('R7', n, 3, 'validate obligations')
+
+
 def run(ck, tier):
     cx = Ctx()
     ck.guard(r1_r2_r3, ck, cx)
@@ -375,7 +396,8 @@ def run(ck, tier):
     ck.guard(r6_fc15_quantity, ck, cx)
     ck.guard(r4_illegal_function, ck, cx)
     ck.guard(r5_slave_failure, ck, cx)
-    ck.assume('address-range arithmetic inside the data blocks is decided by C18, not here')
+    ck.guard(r7_block_validate, ck, cx)
+    ck.assume('address arithmetic of getValues/setValues inside the data blocks is decided by C18, not here')
     ck.assume('partial writes of a custom datastore that raises inside setValues are not decided')
     ck.assume('attribute <-> wire-field binding of the guarded quantities is decided by C01/C02')
     return cx.idx
